@@ -107,7 +107,7 @@ theorem coherent_withFaults {s : State} (h : Coherent s) (f pf : Nat) : Coherent
 
 theorem scene_withFaults {s : State} {ns name : String} {pod : Pod} (h : Scene s ns name pod) (f pf : Nat) :
     Scene (withFaults s f pf) ns name pod :=
-  ⟨coherent_withFaults h.coh f pf, h.cache, h.truth, h.lister, h.wants⟩
+  ⟨coherent_withFaults h.coh f pf, h.cache, h.truth, h.lister, h.wants, h.pending⟩
 
 theorem noFault_withFaults (s : State) : NoFault (withFaults s 0 0) := ⟨rfl, rfl⟩
 
